@@ -373,7 +373,10 @@ func (w *c10world) cell(kind, oc string) string {
 	if oc == "refused" {
 		blocker = newRecProc(sid, []peer.ID{w.ids[1]}, nd.ledger, newSidStats())
 		go func() { blockRet <- nd.coord.Execute(bctx, []tss.TssProcess{blocker}, make(chan interface{}, 1)) }()
-		if !waitUntil(c9wait, func() bool { return nd.coord.VerifPending(sid) }) {
+		// (pending AND standing: its three wait-loop subscriptions exist, so nothing of it is counted later)
+		if !waitUntil(c9wait, func() bool {
+			return nd.coord.VerifPending(sid) && nd.ledger.inner.VerifLiveSubscriptions(sid) >= live0+3
+		}) {
 			return "hang"
 		}
 	}
@@ -396,6 +399,7 @@ func (w *c10world) cell(kind, oc string) string {
 	if oc == "precancel" {
 		cancel() // the caller gave up between constructing the process and executing it
 	}
+	subX, _, _ := nd.ledger.counts(sid) // (a blocker session of the `refused` cell has its own subscriptions by now)
 	go func() { ret <- nd.coord.Execute(ctx, []tss.TssProcess{proc}, make(chan interface{}, 4)) }()
 	ghost := w.nodes[1].ledger
 	subscribed := func() bool { return nd.ledger.inner.VerifLiveSubscriptions(sid) >= live0+3 }
@@ -470,8 +474,8 @@ func (w *c10world) cell(kind, oc string) string {
 		switch {
 		case err == nil:
 			r = "ok"
-		case isRefusal(err):
-			r = "refused"
+		case refusedBy(err, func() int { n, _, _ := nd.ledger.counts(sid); return n - subX }()):
+			r = "refused" // an error, and nothing was registered for the session: recognised by behaviour, not by its text
 		default:
 			r = "err"
 		}
@@ -657,7 +661,12 @@ func c10stuck(a []string) string {
 //
 //	ended by cancelling its context once the party has handed over its first-round messages), then Stop it once.
 //	=> sub=<subscriptions obtained>,unsub=<released>,live=<still registered for the session id>
-func c9rerun(a []string) string { return c10cached("rerun", c9rerunRun, a) }
+func c9rerun(a []string) string {
+	if c9RegistriesUnsafe.Load() {
+		return c9skipped
+	}
+	return c10cached("rerun", c9rerunRun, a)
+}
 
 func c9rerunRun(a []string) string {
 	kind, n := a[0], int(u64(a[1]))
@@ -793,6 +802,11 @@ func genC10(g *G) {
 	for _, h := range []string{"keygen", "fkeygen", "refresh"} {
 		for _, oc := range []string{"noevents", "fetcherr", "silent", "gto", "refused"} {
 			g.Emit("handler", h, oc)
+		}
+		if h != "refresh" { // the event reaches a relayer that already has its share
+			for _, oc := range []string{"noevents", "silent", "gto", "refused"} {
+				g.Emit("handler", h, oc+"+key")
+			}
 		}
 		if h == "refresh" {
 			for _, oc := range []string{"emptyhash", "topoerr", "storefail"} {
